@@ -266,7 +266,7 @@ def run(ctx):
                      visibility_fs.stochastic_raytracing, observation_fs.from_visibility]):
         shapes = [(3, 3, 0), (4, 3, 0), (3, 5, 0 if ctx.thorough else 1200)]
         patterns(ctx, shapes, fns)
-        for k in range(ctx.pick(250, 4000)):
+        for k in range(ctx.pick(250, 12000)):
             if ctx.out_of_time(0.9):
                 ctx.add('random_cases_skipped_for_time')
                 break
